@@ -6,6 +6,8 @@ pub mod mov;
 pub mod bits;
 pub mod ea;
 pub mod decode;
+pub mod flow;
+pub mod exc;
 
 use crate::hv::e1::Case;
 use crate::hv::known::Known;
@@ -16,6 +18,8 @@ pub fn build(id: &str, tier: Tier, seed: u64, known: &[Known]) -> Option<Prop> {
         "C01" => mov::c01(tier, seed),
         "C02" => alu::c02(tier, seed),
         "C04" => bits::c04(tier, seed),
+        "C05" => flow::c05(tier, seed),
+        "C06" => exc::c06(tier, seed),
         "C07" => decode::c07(tier, seed),
         "C08" => ea::c08(tier, seed),
         "C03" => alu::c03(tier, seed),
